@@ -52,6 +52,11 @@ def op_library():
     out += [{"op": "gat", "key": TXT, "expire": 0}, {"op": "gats", "key": MISSING, "expire": -1}, {"op": "stats", "args": ["settings"]}]
     out += [{"op": "incr", "key": TXT, "delta": 1}, {"op": "incr", "key": MISSING, "delta": 1},
             {"op": "version"}, {"op": "stats"}, {"op": "cache_memlimit", "memlimit": 64}, {"op": "quit"}, {"op": "shutdown"}]
+    # raw_command: arbitrary commands, storage commands with their data block included (the block may end in CR LF itself)
+    out += [{"op": "raw_command", "command": b"version"}, {"op": "raw_command", "command": "delete t"},
+            {"op": "raw_command", "command": b"get t n", "end": b"END\r\n"}, {"op": "raw_command", "command": b"set rk 0 0 3\r\nabc"},
+            {"op": "raw_command", "command": b"set rk 0 0 3\r\na\r\n"}, {"op": "raw_command", "command": b"append t 0 0 2\r\n\r\n"},
+            {"op": "raw_command", "command": b"bogus", "end": b"END\r\n"}]
     return out
 
 
@@ -74,7 +79,7 @@ SOCK_FAULTS = {
     "socket": ["oserror"],
     "setsockopt": ["oserror"],
     "settimeout": ["oserror"],
-    "wrap": ["sslerror", "oserror"],
+    "wrap": ["sslerror", "oserror", "valueerror"],      # (ssl raises ValueError for e.g. a missing server_hostname: not an OSError)
     "connect": ["refused", "timeout", "oserror"],
     "sendall": ["reset", "timeout", "pipe"],
     "recv": ["timeout", "reset", "eof", "oserror"],
